@@ -334,6 +334,7 @@ structure LoopSt (ρ : Type) where
   mn : Int        -- `min_stage_num`
   mx : Int        -- `max_stage_num`
   od0 : Nat := 0  -- `odone0`
+  occ : Int := 0  -- `occupancy0`: input frames both streams may use, in whole samples of the coarsest stage in use
   nsw : Nat := 0  -- ghost: stage switches taken
   nmis : Nat := 0 -- ghost: chunks in which the two cross-faded streams produced different amounts
   nneg : Nat := 0 -- ghost: chunks that ended with a negative `step` or clock (the read position runs backwards)
@@ -368,22 +369,29 @@ def chunkFinish (l : LoopSt ρ) (sw shl : Bool) (k : KRes ρ) : LoopSt ρ :=
     nsw := l.nsw + (if sw then 1 else 0), nmis := l.nmis + (if k.mis then 1 else 0),
     nneg := l.nneg + (if backwards k.st then 1 else 0), nshl := l.nshl + (if shl then 1 else 0) }
 
+/-- `occupancy0 &= ~((1 << stage_num) - 1)` at an up-switch to a stage `> 0` (repair of F35): `occupancy0` stays a whole
+    number of samples of the new coarsest stage, so that the streams of a later cross-fade in the same call get `len`s
+    that are exact doubles. -/
+def alignOcc (occ0 sn dif : Int) : Int :=
+  if dif > 0 ∧ sn + dif > 0 then occ0 / 2 ^ (sn + dif).toNat * 2 ^ (sn + dif).toNat else occ0
+
 /-- one iteration of `while (odone0 < olen0)`; the flag says whether the loop goes on (`odone == olen`). -/
-def chunk (cfg : Cfg ρ) (occ0 : Int) (olen0 : Nat) (l : LoopSt ρ) : LoopSt ρ × Bool :=
+def chunk (cfg : Cfg ρ) (olen0 : Nat) (l : LoopSt ρ) : LoopSt ρ × Bool :=
   let a := chunkStart cfg l.st (olen0 - l.od0)
   let dif := stageDif a.1
   let sw := doesSwitch a.1
-  let s := if sw then switchStage a.1 dif occ0 else a.1
+  let s := if sw then switchStage a.1 dif (alignOcc l.occ a.1.cur.sn dif) else a.1
   let k := kernels s a.2 (chunkMn l dif) (chunkMx l dif (decide (a.1.cur.sn + dif < a.1.ns)))
-  (chunkFinish l sw (sw && negLeftShift a.1 dif) k, decide ((k.od : Int) = k.olen))
+  ({ chunkFinish l sw (sw && negLeftShift a.1 dif) k with occ := if sw then alignOcc l.occ a.1.cur.sn dif else l.occ },
+   decide ((k.od : Int) = k.olen))
 
 /-- the `while` loop; every continuing chunk delivers at least one frame, so `olen0 + 1` units of fuel suffice. -/
-def loop (cfg : Cfg ρ) (occ0 : Int) (olen0 : Nat) : Nat → LoopSt ρ → LoopSt ρ
+def loop (cfg : Cfg ρ) (olen0 : Nat) : Nat → LoopSt ρ → LoopSt ρ
   | 0, l => l
   | f + 1, l =>
     if l.od0 < olen0 then
-      let r := chunk cfg occ0 olen0 l
-      if r.2 then loop cfg occ0 olen0 f r.1 else r.1
+      let r := chunk cfg olen0 l
+      if r.2 then loop cfg olen0 f r.1 else r.1
     else l
 
 /-- `fifo_read(f, n, NULL)` on an occupancy: nothing happens unless `0 ≤ n ≤ occupancy`. -/
@@ -446,12 +454,12 @@ def preLoop (cfg : Cfg ρ) (s : St ρ) (olen0 : Nat) : LoopSt ρ × Int :=
   let s := inputStages s mn (intRange (min mn 0) mx)
   let s := if s.fl > 0 then { s with fl := -1 } else s
   let occ0 := shiftl (max 0 ((s.stg mx).occ - 4 * H2)) mx
-  ({ st := setLens s occ0, mn := mn, mx := mx }, occ0)
+  ({ st := setLens s occ0, mn := mn, mx := mx, occ := occ0 }, occ0)
 
 /-- `vr_process` -/
 def process (cfg : Cfg ρ) (s : St ρ) (olen0 : Nat) : PRes ρ :=
   let p := preLoop cfg s olen0
-  let l := loop cfg p.2 olen0 (olen0 + 1) p.1
+  let l := loop cfg olen0 (olen0 + 1) p.1
   let s := post l.st l.mn l.mx
   { st := { s with oocc := s.oocc - ((olen0 : Int) - l.od0) }, od := l.od0, nsw := l.nsw, nmis := l.nmis, nneg := l.nneg,
     nshl := l.nshl }
